@@ -345,8 +345,23 @@ func repairKnownF(st string, cfg planCfg) (string, []lexFinding) {
 
 // judgeLex reads the statement with the dialect's quoting rules and reports what is not a
 // well-formed sequence of quoted identifiers.
+// litChains: the identifier chains written inside string literals (nextval('"s"."t_c_seq"')).
+func litChains(lits []string, pg bool) (cs []chain) {
+	for _, l := range lits {
+		if pg && strings.HasPrefix(l, `"`) {
+			cs2, _, _ := lexChains(l, true)
+			cs = append(cs, cs2...)
+		}
+	}
+	return cs
+}
+
 func judgeLex(w *out.W, id, head, where, st string, cfg planCfg) (chs []chain, lits []string, inLits []chain) {
 	st2, fs := repairKnownF(st, cfg)
+	if stmtSink != nil {
+		stmtSink(st, cfg.pg)
+		stmtSink(st2, cfg.pg)
+	}
 	for _, f := range fs {
 		if f.class == "nextval-literal-unescaped" {
 			w.Violation(id, f.class, fmt.Sprintf("%s: %s statement: the sequence reference %s stands in a string literal whose single quote is not doubled: %s", head, where, f.name, oneLine(st)))
